@@ -3,7 +3,7 @@ CONSTANTS
   StrMax = 5
   KAll = 2
   KSem = 3
-  SemDims = {"tkeys", "iamt", "trs", "conv", "itype"}
+  SemDims = {"second", "tkeys", "iaddr", "itype", "iamt", "trs", "conv"}
   BigMenu = FALSE
 INIT Init
 NEXT Next
